@@ -291,31 +291,32 @@ fn prefix(sc: &Scenario, st: Style, l: &ExpLine) -> Vec<u8> {
     p
 }
 
-/// Plain rendering plus, per byte, whether it must be highlighted (`Some(bool)`) or is a
-/// newline whose colour does not matter (`None`).
-fn render(sc: &Scenario, st: Style, lines: &[ExpLine]) -> (Vec<u8>, Vec<Option<bool>>) {
+/// Plain rendering plus, per byte, what the model says about its highlight.
+fn render(sc: &Scenario, st: Style, lines: &[ExpLine]) -> (Vec<u8>, Vec<Want>) {
     let mut out = Vec::new();
     let mut hl = Vec::new();
     for l in lines {
         let p = prefix(sc, st, l);
-        hl.extend(std::iter::repeat(Some(false)).take(p.len()));
+        hl.extend(std::iter::repeat(Want::Prefix).take(p.len()));
         out.extend_from_slice(&p);
         out.extend_from_slice(&l.text);
-        hl.extend(l.cov.iter().map(|&c| Some(c)));
+        hl.extend(l.cov.iter().map(|&c| Want::Text(c)));
         out.push(b'\n');
-        hl.push(None);
+        hl.push(Want::Newline);
     }
     (out, hl)
 }
 
-/// Remove SGR sequences; per remaining byte, whether a highlight was active.
+/// Remove escape sequences; per remaining byte, the id of the SGR style active there (0 = none,
+/// i.e. after a reset). Any CSI sequence is accepted; only `m` (SGR) changes the style.
 /// `allow_truncated_tail`: an incomplete escape sequence at the very end is tolerated
 /// (output cut by a write fault).
-fn strip_sgr(raw: &[u8], allow_truncated_tail: bool) -> Result<(Vec<u8>, Vec<bool>, Vec<(usize, usize)>), String> {
+fn strip_sgr(raw: &[u8], allow_truncated_tail: bool) -> Result<(Vec<u8>, Vec<u32>, Vec<(usize, usize)>), String> {
     let mut plain = Vec::with_capacity(raw.len());
     let mut hl = Vec::with_capacity(raw.len());
     let mut spans = vec![];
-    let mut on = false;
+    let mut styles: Vec<Vec<u8>> = vec![];
+    let mut cur = 0u32;
     let mut i = 0;
     while i < raw.len() {
         if raw[i] == 0x1b {
@@ -325,13 +326,31 @@ fn strip_sgr(raw: &[u8], allow_truncated_tail: bool) -> Result<(Vec<u8>, Vec<boo
             if j < raw.len() && raw[j] == b'[' {
                 j += 1;
                 let ps = j;
-                while j < raw.len() && (raw[j].is_ascii_digit() || raw[j] == b';') {
+                while j < raw.len() && (0x30..=0x3f).contains(&raw[j]) {
                     j += 1;
                 }
-                if j < raw.len() && raw[j] == b'm' {
-                    let params = &raw[ps..j];
-                    let reset = params.is_empty() || params.split(|&c| c == b';').all(|p| p.iter().all(|&d| d == b'0'));
-                    on = !reset;
+                let pe = j;
+                while j < raw.len() && (0x20..=0x2f).contains(&raw[j]) {
+                    j += 1;
+                }
+                if j < raw.len() && (0x40..=0x7e).contains(&raw[j]) {
+                    if raw[j] == b'm' {
+                        let params = &raw[ps..pe];
+                        let reset = params.is_empty() || params.split(|&c| c == b';').all(|p| p.iter().all(|&d| d == b'0'));
+                        if reset {
+                            cur = 0;
+                        } else {
+                            // "0;31" or a reset followed by a colour both end up as that colour
+                            let id = match styles.iter().position(|s| s == params) {
+                                Some(p) => p,
+                                None => {
+                                    styles.push(params.to_vec());
+                                    styles.len() - 1
+                                }
+                            };
+                            cur = id as u32 + 1;
+                        }
+                    }
                     j += 1;
                     ok = true;
                 }
@@ -346,11 +365,53 @@ fn strip_sgr(raw: &[u8], allow_truncated_tail: bool) -> Result<(Vec<u8>, Vec<boo
             i = j;
         } else {
             plain.push(raw[i]);
-            hl.push(on);
+            hl.push(cur);
             i += 1;
         }
     }
     Ok((plain, hl, spans))
+}
+
+/// What the model says about the highlight of one output byte.
+#[derive(Clone, Copy, PartialEq, Debug)]
+enum Want {
+    /// byte of the line's text: highlighted iff covered by an occurrence
+    Text(bool),
+    /// byte of a file-name / line-number prefix: never in a style used for matches
+    Prefix,
+    /// the newline: not constrained
+    Newline,
+}
+
+/// Compare the styles of the first `n` output bytes with the model. Text bytes: styled iff
+/// covered. Prefix bytes: unstyled, or styled differently from every matched byte (a tool may
+/// colour its prefixes, as grep does; the match highlight leaking into a prefix is an error).
+fn check_highlight(plain: &[u8], hl: &[u32], want: &[Want], n: usize) -> Result<(), (usize, String)> {
+    let mut match_styles: Vec<u32> = vec![];
+    for i in 0..n {
+        if let Want::Text(w) = want[i] {
+            if (hl[i] != 0) != w {
+                return Err((
+                    i,
+                    format!(
+                        "is {} but should be {}",
+                        if hl[i] != 0 { "highlighted" } else { "not highlighted" },
+                        if w { "highlighted (covered by an occurrence)" } else { "plain (covered by no occurrence)" }
+                    ),
+                ));
+            }
+            if w && !match_styles.contains(&hl[i]) {
+                match_styles.push(hl[i]);
+            }
+        }
+    }
+    for i in 0..n {
+        if want[i] == Want::Prefix && hl[i] != 0 && match_styles.contains(&hl[i]) {
+            return Err((i, "belongs to a file-name/line-number prefix but is printed in the match highlight".into()));
+        }
+    }
+    let _ = plain;
+    Ok(())
 }
 
 fn show(b: &[u8]) -> String {
@@ -423,24 +484,14 @@ fn judge_full(sc: &Scenario, r: &RunResult, strip_cr: bool, c: &mut Counters) ->
         _ => false,
     };
     if colored {
-        let hl = hl.unwrap_or_else(|| vec![false; plain.len()]);
-        for (i, w) in want_hl.iter().enumerate() {
-            if let Some(w) = w {
-                if hl[i] != *w {
-                    let ls = plain[..i].iter().rposition(|&c| c == b'\n').map(|p| p + 1).unwrap_or(0);
-                    let le = plain[i..].iter().position(|&c| c == b'\n').map(|p| i + p).unwrap_or(plain.len());
-                    return Err(Violation {
-                        class: "wrong-highlight".into(),
-                        detail: format!(
-                            "byte {} of output line {} is {} but should be {}",
-                            i - ls,
-                            show(&plain[ls..le]),
-                            if hl[i] { "highlighted" } else { "not highlighted" },
-                            if *w { "highlighted (covered by an occurrence)" } else { "plain (covered by no occurrence)" }
-                        ),
-                    });
-                }
-            }
+        let hl = hl.unwrap_or_else(|| vec![0; plain.len()]);
+        if let Err((i, what)) = check_highlight(&plain, &hl, &want_hl, plain.len()) {
+            let ls = plain[..i].iter().rposition(|&c| c == b'\n').map(|p| p + 1).unwrap_or(0);
+            let le = plain[i..].iter().position(|&c| c == b'\n').map(|p| i + p).unwrap_or(plain.len());
+            return Err(Violation {
+                class: "wrong-highlight".into(),
+                detail: format!("byte {} of output line {} {}", i - ls, show(&plain[ls..le]), what),
+            });
         }
         c.p_highlight_checked_lines += lines.len() as u64;
         if lines.iter().any(|l| l.text.iter().zip(&l.cov).any(|(b, c)| *c && *b >= 0x80)) {
@@ -494,12 +545,8 @@ fn judge_hard(sc: &Scenario, r: &RunResult, write_fault: bool, read_fault_file: 
                 continue;
             }
             if colored {
-                for i in 0..plain.len() {
-                    if let Some(w) = want_hl[i] {
-                        if hl[i] != w {
-                            return Err(Violation { class: "wrong-highlight".into(), detail: format!("after a hard fault: output byte {i} has the wrong highlight state") });
-                        }
-                    }
+                if let Err((i, what)) = check_highlight(&plain, &hl, &want_hl, plain.len()) {
+                    return Err(Violation { class: "wrong-highlight".into(), detail: format!("after a hard fault: output byte {i} {what}") });
                 }
             }
             return Ok(());
